@@ -277,6 +277,7 @@ void PCA(matrix *mx, int scaling, size_t npc, PCAMODEL* model, ssignal *s)
 
       while(1){
         /* Step 2: projection of t' in E (t'*E) */
+        DVectorSet(p, 0.f); /* the product accumulates into p */
         MT_DVectorMatrixDotProduct(E, t, p);
         /* calc the vectors product t'*t = Sum(t[i]^2) */
         mod_t = DVectorDVectorDotProd(t, t);
